@@ -23,7 +23,21 @@ func genAddr(r *hlib.Rng) string {
 // earlier deposits of the current history, so that identical deposits (equal leaf values) occur
 var prevBridges []Ev
 
+// the deposit with each count of the current history: a deposit equal to the one two counts earlier puts two equal leaves on
+// positions of the same parity, whose branches then share their lowest node(s) while differing above
+var bridgeByDC = map[uint32]Ev{}
+
 func genBridge(r *hlib.Rng, dc uint32, pos uint64, tag uint64) Ev {
+	e := genBridge1(r, dc, pos, tag)
+	bridgeByDC[dc] = e
+	return e
+}
+
+func genBridge1(r *hlib.Rng, dc uint32, pos uint64, tag uint64) Ev {
+	if p, ok := bridgeByDC[dc-2]; ok && dc >= 2 && r.Intn(5) == 0 {
+		p.Pos, p.Tag, p.DC = pos, tag, dc
+		return p
+	}
 	if len(prevBridges) > 0 && r.Intn(4) == 0 {
 		e := prevBridges[r.Intn(len(prevBridges))]
 		e.Pos, e.Tag, e.DC = pos, tag, dc
@@ -177,6 +191,33 @@ func genC01High(r *hlib.Rng) In {
 		if r.Intn(3) == 0 {
 			in.Ops = append(in.Ops, Op{K: "restart"})
 		}
+	}
+	in.Ops = append(in.Ops, snapOp())
+	return in
+}
+
+// equal deposits on positions of the same parity (two alternating deposit contents, 10 deposits in blocks of 1..3): the branches of
+// equal leaves share their lowest nodes and differ above; every recorded root must still serve verifying proofs
+func genC08Equal(r *hlib.Rng) In {
+	in := In{Prop: "c08", Proofs: "all"}
+	a, b := genBridge0(r, 0, 0, 0), genBridge0(r, 0, 0, 0)
+	num, dc, tag := uint64(0), uint32(0), uint64(0)
+	for dc < 10 {
+		num += uint64(1 + r.Intn(2))
+		op := Op{K: "block", Num: num}
+		pos := uint64(0)
+		for k := 1 + r.Intn(3); k > 0 && dc < 10; k-- {
+			pos += uint64(1 + r.Intn(2))
+			tag++
+			e := a
+			if dc%2 == 1 || dc == 6 { // positions 0, 2, 4, 8 hold a; 1, 3, 5, 6, 7, 9 hold b
+				e = b
+			}
+			e.Pos, e.Tag, e.DC = pos, tag, dc
+			op.Events = append(op.Events, e)
+			dc++
+		}
+		in.Ops = append(in.Ops, op)
 	}
 	in.Ops = append(in.Ops, snapOp())
 	return in
@@ -485,6 +526,9 @@ func generate(prop string, f *hlib.Flags) []In {
 				ins = append(ins, genC01(r, 3+r.Intn(12)))
 			}
 		case "c08":
+			if i == 0 {
+				ins = append(ins, genC08Equal(hlib.NewRng(f.Seed^0xe9a1)))
+			}
 			ins = append(ins, genC08(r, 4+r.Intn(8)))
 		case "c04":
 			ins = append(ins, genC04(r, 6, i%5 == 4))
